@@ -10,6 +10,8 @@ import (
 	"fmt"
 	"math/rand"
 	"os"
+	"os/exec"
+	"os/signal"
 	"path/filepath"
 	"strconv"
 	"strings"
@@ -52,6 +54,85 @@ type softStat struct {
 	quiet, breached int
 	worst           time.Duration
 	example         string
+}
+
+// lateIgnorer: a command that ignores the interrupt from its very first instruction (it inherits
+// SIG_IGN, as a child of a process that ignores the signal does) and is started when the context
+// has long expired - the second script under a T that runs subtests one after another. It must
+// be interrupted at once, killed one grace period later, and RunT must still end about at the
+// deadline. Runs alone (the disposition is process-wide) after all other cases.
+func lateIgnorer(r *vlib.Run, base string, report func(kind string, c dcase)) {
+	sleepBin, err := exec.LookPath("sleep")
+	if err != nil {
+		r.Count("late_ignorer_case_skipped_no_sleep_binary", 1)
+		return
+	}
+	_ = sleepBin
+	dir := filepath.Join(base, "lateignorer")
+	os.MkdirAll(dir, 0o777)
+	defer os.RemoveAll(dir)
+	tag := fmt.Sprintf("86400.%06d", os.Getpid()%1000000)
+	var files []string
+	var specs []scriptSpec
+	for i := 0; i < 2; i++ {
+		f := filepath.Join(dir, fmt.Sprintf("ign%d.txt", i))
+		text := "exec sleep " + tag + "\n"
+		os.WriteFile(f, []byte(text), 0o666)
+		files = append(files, f)
+		specs = append(specs, scriptSpec{Name: fmt.Sprintf("ign%d", i), Kind: "born-ignoring", Text: text})
+	}
+	stray := func() (pids []int) {
+		ents, _ := os.ReadDir("/proc")
+		for _, e := range ents {
+			pid, err := strconv.Atoi(e.Name())
+			if err != nil {
+				continue
+			}
+			b, _ := os.ReadFile(filepath.Join("/proc", e.Name(), "cmdline"))
+			if strings.Contains(string(b), "sleep\x00"+tag) {
+				pids = append(pids, pid)
+			}
+		}
+		return pids
+	}
+	signal.Ignore(syscall.SIGQUIT)
+	defer signal.Reset(syscall.SIGQUIT)
+	dist := 1200 * time.Millisecond
+	p := testscript.Params{Files: files, Deadline: time.Now().Add(dist)}
+	start := vlib.MonoNow()
+	root := tsh.NewRoot(tsh.StyleGoexit, false, false)
+	finished := make(chan struct{})
+	go func() {
+		root.Run("batch", func(t testscript.T) { testscript.RunT(t, p) })
+		close(finished)
+	}()
+	r.Eval(2)
+	r.Count("late_ignorer_cases", 1)
+	select {
+	case <-finished:
+	case <-time.After(dist + hard):
+		report("not-finished-long-after-the-deadline", dcase{"not-finished-long-after-the-deadline", -1, dist.String(), "100ms", specs,
+			fmt.Sprintf("%v after the deadline RunT has still not finished: a command that ignores the interrupt and was started after the context had expired was never killed (its processes: %v)", hard, stray()), ""})
+		for _, pid := range stray() {
+			syscall.Kill(pid, syscall.SIGKILL)
+		}
+		<-finished
+		return
+	}
+	took := time.Duration(vlib.MonoNow() - start)
+	for _, sub := range root.Subs[0].Subs {
+		if v := sub.Verdict(); v != "fail" || !strings.Contains(sub.LogText(), "test timed out while running command") {
+			report("blocked-script-not-failed", dcase{"blocked-script-not-failed", -1, dist.String(), "100ms", specs,
+				fmt.Sprintf("script %s blocks in a command that ignores the interrupt; reported %s, log %q", sub.Name, v, sub.LogText()), sub.LogText()})
+		}
+	}
+	if pids := stray(); len(pids) > 0 {
+		report("process-left-alive", dcase{"process-left-alive", -1, dist.String(), "100ms", specs, fmt.Sprintf("sleep processes %v are still alive after RunT returned", pids), ""})
+		for _, pid := range pids {
+			syscall.Kill(pid, syscall.SIGKILL)
+		}
+	}
+	r.Set("late_ignorer_case_took", took.String())
 }
 
 func main() {
@@ -401,6 +482,7 @@ func main() {
 			}
 		}
 		vlib.Parallel(len(jobs), 8, func(i int) { runCase(jobs[i]) })
+		lateIgnorer(r, base, report)
 		r.Set("cases", ncases)
 		r.Set("cases_quiet", atomic.LoadInt64(&quiet))
 		r.Set("cases_noisy_soft_bounds_skipped", atomic.LoadInt64(&noisy))
